@@ -427,7 +427,7 @@ def check_C08(run, replay):
                 "bounds and the returned normalised average; half of the scale-invariant cases are run with payoffs and regrets "
                 "multiplied by 2^-70 or 2^60 (positive homogeneity; exact in binary floating point); "
                 "two-step: the same from injected states with exact parameters over TWO consecutive iterations (MC_CfrStep2: state "
-                "carried between iterations besides the three accumulators); non-trivial = every case; distinct by canonical JSON; the exact trajectory cases include a game whose two-thread passes cut a real frontier; chance nodes reach the library unlabelled")
+                "carried between iterations besides the three accumulators; one case in four from the FORGETTING family: alpha = -inf at t in {2,3} under a sampled method, 70 % on a game of which a sampled pass reaches one branch only - an unvisited infoset must still be re-matched); non-trivial = every case; distinct by canonical JSON; the exact trajectory cases include a game whose two-thread passes cut a real frontier; chance nodes reach the library unlabelled")
     run.assumptions = ["irrational discount factors t^e/(t^e+1), (t/(t+1))^g and the finite-weight softmax are evaluated by "
                        "the harness with f64 powf/exp from the documented formulas (DESIGN 3.1)",
                        "comparison tolerance 1e-10 relative"]
